@@ -30,7 +30,8 @@ Example C20_state_premises : m_body msg_ok = BLit {| l_format := 116; l_name := 
   /\ m_mdc msg_ok = None.
 Proof. split; reflexivity. Qed.
 
-(* a stray MDC packet (what PGPMessage.decrypt leaves in the object) is exported in the clear: outside the grammar *)
+(* why the premise m_mdc = None: a stray MDC packet accepted on import is re-exported in the clear, outside the grammar.
+   (PGPMessage.decrypt no longer leaves one behind - 8a513cb; the harness checks that on every decrypted message) *)
 Theorem C20_export_with_mdc_refuted :
   exists m ps, import_pkts [PLit lit_example; PMdc [0]] = Some m /\ export_pkts m = Some ps /\ is_message (toks ps) = false.
 Proof. exact export_with_mdc_refuted. Qed.
@@ -132,7 +133,7 @@ Print Assumptions C20_parse_emit.
 
 (* ---------------------------------------------------------------- literal data body codec (RFC 4880 5.9) *)
 (* round trip: consumes exactly its own length, following data untouched *)
-Theorem C20_lit_roundtrip : forall l b r, lit_body l = Some b -> l_mtime l < 4294967296 -> wf_bytes (l_data l) ->
+Theorem C20_lit_roundtrip : forall l b r, lit_body l = Some b -> wf_bytes (l_data l) ->
   lit_parse (Z.of_nat (length b)) (b ++ r) = Some (l, r).
 Proof. exact lit_roundtrip. Qed.
 Print Assumptions C20_lit_roundtrip.
@@ -145,15 +146,22 @@ Theorem C20_lit_parse_eq_rfc : forall body r f name t data, wf_bytes body ->
 Proof. exact lit_parse_eq_rfc. Qed.
 Print Assumptions C20_lit_parse_eq_rfc.
 (* what is emitted is what the RFC decoder reads *)
-Theorem C20_lit_body_rfc : forall l b, lit_body l = Some b -> l_mtime l < 4294967296 ->
+Theorem C20_lit_body_rfc : forall l b, lit_body l = Some b ->
   rfc_lit_dec b = Some (l_format l, l_name l, l_mtime l, l_data l).
 Proof. exact lit_body_rfc. Qed.
 Print Assumptions C20_lit_body_rfc.
-(* a time after 2106-02-07 is emitted as five octets; PGPy reads its own output back with another time and content *)
-Theorem C20_lit_time_overflow_refuted :
-  exists l b l' r', lit_body l = Some b /\ lit_parse (Z.of_nat (length b)) (b ++ [170]) = Some (l', r') /\
+(* a time that does not fit four octets is refused; whatever is emitted carries a four-octet time *)
+Theorem C20_lit_time_refused : forall l, 4294967296 <= l_mtime l -> lit_body l = None.
+Proof. exact lit_time_refused. Qed.
+Print Assumptions C20_lit_time_refused.
+Theorem C20_lit_body_time : forall l b, lit_body l = Some b -> 0 <= l_mtime l < 4294967296.
+Proof. exact lit_body_time. Qed.
+Print Assumptions C20_lit_body_time.
+(* the emitter before the repair (58e1aa9): five octets after 2106-02-07, own output read back with another time and content *)
+Theorem C20_lit_time_overflow_prefix_refuted :
+  exists l b l' r', lit_body_prefix l = Some b /\ lit_parse (Z.of_nat (length b)) (b ++ [170]) = Some (l', r') /\
     l_mtime l' <> l_mtime l /\ l_data l' <> l_data l.
-Proof. exact lit_time_overflow_refuted. Qed.
+Proof. exact lit_time_overflow_prefix_refuted. Qed.
 
 (* ---------------------------------------------------------------- one-pass signature body codec (RFC 4880 5.4) *)
 Theorem C20_ops_roundtrip : forall o r, length (o_keyid o) = 8%nat -> memz (o_type o) sigtypes = true -> memz (o_pkalg o) pkalgs = true ->
@@ -166,17 +174,30 @@ Proof. exact ops_body_rfc. Qed.
 Print Assumptions C20_ops_body_rfc.
 
 (* ---------------------------------------------------------------- content read back *)
-(* format 't': stored as UTF-8, read back as latin-1 (finding C20/text-format-read-back-latin1) *)
-Theorem C20_text_t_refuted : exists t, contents {| l_format := 116; l_name := []; l_mtime := 0; l_data := utf8 t |} <> VLatin1 t.
-Proof. exact text_t_refuted. Qed.
-Theorem C20_text_t_outside_defect : forall name mtime t comp, defect_text_t 116 t = false ->
-  match m_body (new_text 116 name mtime t comp) with BLit l => contents l = VLatin1 t | _ => False end.
-Proof. exact text_t_outside_defect. Qed.
-Print Assumptions C20_text_t_outside_defect.
-Example C20_text_t_premises : defect_text_t 116 [104; 105; 10] = false.
+(* the strict UTF-8 decoder of the model inverts text_to_bytes on every encodable Python string *)
+Theorem C20_utf8_roundtrip : forall t, forallb valid_cp t = true -> utf8_decode (utf8 t) = Some t.
+Proof. exact utf8_roundtrip. Qed.
+Print Assumptions C20_utf8_roundtrip.
+(* text given to PGPMessage.new with format 't' or 'u' reads back as the same text *)
+Theorem C20_text_roundtrip : forall fmt name mtime t comp, fmt = 116 \/ fmt = 117 -> forallb valid_cp t = true ->
+  match m_body (new_text fmt name mtime t comp) with BLit l => contents l = VText t | _ => False end.
+Proof. exact text_roundtrip. Qed.
+Print Assumptions C20_text_roundtrip.
+Example C20_text_premises : forallb valid_cp [99; 97; 102; 233; 9731; 119070] = true.
 Proof. reflexivity. Qed.
-Theorem C20_contents_octets : forall l, l_format l <> 116 ->
-  contents l = if l_format l =? 117 then VUtf8 (l_data l) else VBytes (l_data l).
+(* the reader before the repair (b404cfc): 't' decoded latin-1 although stored as UTF-8 *)
+Theorem C20_text_t_prefix_refuted :
+  exists t, forallb valid_cp t = true /\
+    contents_prefix {| l_format := 116; l_name := []; l_mtime := 0; l_data := utf8 t |} <> VText t.
+Proof. exact text_t_prefix_refuted. Qed.
+(* 't' data of another producer that is not UTF-8 stays readable as latin-1 *)
+Theorem C20_text_t_foreign_latin1 : forall l, l_format l = 116 -> utf8_decode (l_data l) = None -> contents l = VText (l_data l).
+Proof. exact text_t_foreign_latin1. Qed.
+Print Assumptions C20_text_t_foreign_latin1.
+Example C20_text_t_foreign_premises : utf8_decode [99; 97; 102; 233] = None.
+Proof. reflexivity. Qed.
+(* every other format marker hands back the stored octets *)
+Theorem C20_contents_octets : forall l, l_format l <> 116 -> l_format l <> 117 -> contents l = VBytes (l_data l).
 Proof. exact contents_octets. Qed.
 Print Assumptions C20_contents_octets.
 
